@@ -583,6 +583,20 @@ def r5(ctx):
             ctx.bad(fi.qualname, 'registry-error',
                     'registry lookup can escape as KeyError or format=None is not handled',
                     fi.loc())
+    # which registry entries are consulted to identify a format: exactly the 'identify' entries of the class asked about
+    from ..vg import Const, Evaluator, Obj, Tup, show
+    gi = m.method(reg, 'get_identifiers')
+    ctx.need(gi is not None, 'RegionsRegistry.get_identifiers', 'missing')
+    keys = [('Regions', 'identify', 'ds9'), ('Regions', 'read', 'ds9'), ('Region', 'identify', 'ds9'),
+            ('Regions', 'identify', 'fits'), ('Regions', 'write', 'fits')]
+    K = Tup(tuple(Tup(tuple(Const(x) for x in k)) for k in keys), 'list')
+    out = Evaluator(m).run(gi, [Obj('RegionsRegistry', {'registry': K}, None, None), Const('Regions')], {})
+    got = show(out.returns[0][1], 300) if len(out.returns) == 1 else '?'
+    if got == "[['Regions', 'identify', 'ds9'], ['Regions', 'identify', 'fits']]":
+        ctx.ok(gi.qualname, "selects the class's own 'identify' entries")
+    else:
+        ctx.bad(gi.qualname, 'identifier-selection', f'from the entries {keys} the identifiers selected for Regions are {got}',
+                gi.loc())
     nf = m.method(reg, '_no_format_error')
     idf = m.method(reg, 'identify_format')
     ctx.need(nf and idf, 'RegionsRegistry', 'helpers missing')
@@ -617,6 +631,6 @@ RULES = [
     RuleDef('R4', 'identifier extension/signature tables agree with writers', r4, 6),
     RuleDef('R4b', 'identifier semantics (symbolic): write/read/other-method outcomes', r4b, 3),
     RuleDef('R4c', 'FITS table is written under the extension name the reader looks for', r4c, 1),
-    RuleDef('R5', 'registry raises IORegistryError for unknown/unidentified formats', r5, 6),
+    RuleDef('R5', 'registry raises IORegistryError for unknown/unidentified formats; identifier selection', r5, 7),
     RuleDef('R6', 'identification and I/O keep no state between calls (C13.R2 on registry/io)', r6, 1),
 ]
